@@ -662,6 +662,57 @@ def rule_11(ctx):
     ctx.floor(len(SEQUENCE), 'parser calls')
 
 
+MODEL_TWINS = [
+    # formulas that differ only in what KIND of token a text is, side by side in one model
+    '=B1', '="B1"', '=1', '="1"', '=TRUE', '="TRUE"', '=#N/A', '="#N/A"', '=SUM("1",2)', '=SUM(1,2)', '=A1&"1"', '= A1& 1', '=A1&1', '=rate', '="rate"',
+    '=IF(A1="rate",rate,0)', '=LEN("total")+total', '="Yes"', '=Yes', '=SUM(A1:B1)', '="SUM(A1:B1)"', '=A1:B1', '="A1:B1"', "='Data'!A1", '="\'Data\'!A1"',
+    '=-1', '="-1"', '=1E+3', '="1E+3"', '=A1+B1', '=A1 +B1', '="A1+B1"', '=F(1)', '=F("1")', '=F(TRUE)', '=F("TRUE")',
+]
+
+
+def rule_12(ctx):
+    """The tree a compiled model holds for a cell is the tree of that cell's own text: a workbook (dict reader, and the reader path
+    with defined names) holding formulas that differ only in the kind of one token - a reference and the same characters in
+    quotes, a number / boolean / error literal and its quoted form, a defined name and a text literal spelt like it, the same
+    tokens with other blanks - compiled by Model.build_code as written; every cell's tree read back and compared with the tree
+    of the same text parsed on its own with the same name table."""
+    from . import parsetables as P
+    from . import workbook as W
+    models = P.operator_models(ctx)
+    anchor = ctx.mod('model').func('Model.build_code')
+    names = {'rate': 'Data!$A$2', 'total': 'Data!$A$3', 'Yes': 'Data!$Z$9'}
+    resolved = {'rate': 'Data!A2', 'total': 'Data!A3', 'Yes': 'Data!Z9'}
+    n = 0
+    for label, order in (('in written order', list(MODEL_TWINS)), ('in reverse order', list(reversed(MODEL_TWINS)))):
+        sheet = {'A1': 4, 'A2': 0.5, 'A3': 'Gross', 'B1': 7, 'Z9': 1}
+        addr = {}
+        for i, f in enumerate(order, start=1):
+            sheet[f'F{i}'] = f
+            addr[f] = f'Data!F{i}'
+        wb = W.Workbook(ctx, sheets={'Data': sheet}, names=names)
+        cells = wb.model.f.get('cells')
+        for f in order:
+            cell = cells.get(addr[f]) if isinstance(cells, dict) else None
+            formula = cell.f.get('formula') if isinstance(cell, Rec) else None
+            node = formula.f.get('ast') if isinstance(formula, Rec) else None
+            if not isinstance(node, Rec):
+                raise Unmodelled(f'the compiled cell {addr[f]} holds no tree for {f!r}')
+            got = P.tree_of_node(ctx, node, models, wb.world)
+            want = P.parse_tree(ctx, f, models, names=resolved)
+            n += 1
+            ctx.expect(got == want, anchor, f'tree of {f} in a model holding its twins ({label})',
+                       f'the compiled model holds the tree {got!r} for the cell with the text {f!r}; that text parsed on its own (names {resolved}) is {want!r}: '
+                       'one node per written construct - a quoted text is a text whatever else the workbook holds')
+    # the hand-read kinds of the decisive pairs (the comparison above would also pass if both sides were wrong alike)
+    for f, want in (('="B1"', 'B1'), ('=B1', ('ref', 'B1')), ('="1"', '1'), ('=1', 1), ('="TRUE"', 'TRUE'), ('=TRUE', True), ('="rate"', 'rate'),
+                    ('=rate', ('ref', 'Data!A2')), ('="Yes"', 'Yes'), ('=IF(A1="rate",rate,0)', ('call', 'IF', ('op', '=', ('ref', 'A1'), 'rate'), ('ref', 'Data!A2'), 0))):
+        got = P.parse_tree(ctx, f, models, names=resolved)
+        n += 1
+        ctx.expect(got == P.refify(want) or got == want, anchor, f'kind of every token of {f} with a name table',
+                   f'{f!r} parsed with the names {resolved} is {got!r}, expected {want!r}')
+    ctx.floor(2 * len(MODEL_TWINS) + 10, 'model trees')
+
+
 RULES = [
     ('C02.1', 'string-literal content is opaque to syntactic decisions', rule_1),
     ('C02.2', 'bounded single-character reads in the tokenizer', rule_2),
@@ -674,4 +725,5 @@ RULES = [
     ('C02.9', 'operator tree shape (precedence relation, pop table, operand order, prefix/infix switch; shared with C01)', rule_9),
     ('C02.10', 'literal text reaches the token stream unchanged (witness formulas)', rule_10),
     ('C02.11', 'parser calls made one after the other in one process do not influence each other', rule_11),
+    ('C02.12', 'the tree a compiled model holds for a cell is the tree of the cell\'s own text (twins side by side, defined names)', rule_12),
 ]
